@@ -57,3 +57,10 @@ Theorem push_auto_values : forall args bs, ModelProgram.asm_push_auto args = Ok 
   exists toks, ModelProgram.disassemble bs = Ok toks /\ ProofsPushValues.all_pushed toks = Some args.
 Proof. exact ProofsPushValues.push_auto_values. Qed.
 Print Assumptions push_auto_values.
+
+(* the two instruction tables as the source has them now: no opcode is claimed by two rows or by both tables, so the
+   dictionaries _makeDict builds do not depend on the order of the rows *)
+Theorem opcode_classes_disjoint : forall op, 0 <= op < 256 ->
+  (ProofsProgram.count_cover Data_ttops.tt_instructions op + ProofsProgram.count_cover Data_ttops.tt_stream op <= 1)%nat.
+Proof. exact ProofsProgram.opcode_classes_disjoint. Qed.
+Print Assumptions opcode_classes_disjoint.
